@@ -8,7 +8,7 @@
    voice invariant are also evaluated on every frame of the correspondence run. *)
 From Coq Require Import ZArith List Lia Bool.
 Import ListNotations.
-From LX Require Import Base.ListAux Generated.Consts Model.Downmix Proofs.DownmixProofs Model.FrameInfo Model.Voices Proofs.VoicesProofs Proofs.VoicesInv.
+From LX Require Import Base.ListAux Generated.Consts Model.Downmix Proofs.DownmixProofs Model.FrameInfo Model.Voices Proofs.VoicesProofs Proofs.VoicesInv Model.Flow Proofs.FlowProofs.
 Local Open Scope Z_scope.
 
 Theorem voices_inv_established : forall nvoc nchan ntrk mt s,
@@ -131,3 +131,37 @@ Example c16_nonvacuous :
                     fi_frame_time := 20000; fi_buffer_size := 3528; fi_total_size := 24585; fi_loop_count := 0;
                     fi_virt_channels := 4; fi_virt_used := 3; fi_sequence := 0 |} = true.
 Proof. vm_compute. reflexivity. Qed.
+
+(* ---------------------------------------------------------------- the position clause ---------------------------------- *)
+
+(* The sequencer step of the player (next_order / next_row of player.c; Model/Flow.v is compared with them step by step through
+   hook H7).  For every module with the structural facts C03 gives (order list of 1..256 entries, every pattern with at least one
+   row, restart position and the playing sequence's entry point inside the list) whose sequence can be played at all (going up from
+   its entry point a real pattern comes before the end of the list and before any end marker - what the scan requires of a
+   sequence), and for EVERY flow state the effects of a row may leave behind - any pattern break, any jump target, any jump line,
+   any pattern-loop destination, any row delay: the step ends, and the player is on an order inside the list that holds a real
+   pattern, on a row of that pattern, with num_rows that pattern's row count. *)
+Theorem next_row_keeps_position_valid : forall m s, fmod_okb m = true -> playableb m = true -> pos_okb m s = true -> 0 <= s_jumpline s -> -1 <= s_jump s ->
+  exists s', next_row m s = Some s' /\ pos_okb m s' = true /\ s_frame s' = 0.
+Proof. exact next_row_pos. Qed.
+Print Assumptions next_row_keeps_position_valid.
+
+(* the same for next_order alone (the reposition branch of xmp_play_frame calls it directly), from any order number >= -1 *)
+Theorem next_order_reaches_a_pattern : forall m s, fmod_okb m = true -> playableb m = true -> -1 <= s_ord s -> 0 <= s_jumpline s ->
+  exists s', next_order m s = Some s' /\ pos_okb m s' = true /\ s_pos s' = s_ord s' /\ s_frame s' = 0 /\ s_jumpline s' = 0.
+Proof. exact next_order_pos. Qed.
+Print Assumptions next_order_reaches_a_pattern.
+
+(* non-vacuity: skip marker 0xfe and end marker 0xff in the list, a jump beyond the end, a jump line beyond the pattern *)
+Example c16_flow_nonvacuous :
+  let m := {| f_len := 5; f_pat := 2; f_rst := 0; f_xxo := [0; 254; 1; 255; 0]; f_rows := [64; 16]; f_marker := true; f_entry := 0; f_rst_in_seq := true |} in
+  let s := {| s_ord := 0; s_row := 63; s_pos := 0; s_frame := 5; s_pbreak := 0; s_jump := -1; s_delay := 0; s_jumpline := 0; s_loop_dest := -1; s_loop_param := -1;
+              s_num_rows := 64; s_rowdelay := 0; s_rowdelay_set := 0 |} in
+  let sj := {| s_ord := 0; s_row := 3; s_pos := 0; s_frame := 5; s_pbreak := 1; s_jump := 200; s_delay := 0; s_jumpline := 40; s_loop_dest := -1; s_loop_param := -1;
+               s_num_rows := 64; s_rowdelay := 0; s_rowdelay_set := 0 |} in
+  fmod_okb m = true /\ playableb m = true /\ pos_okb m s = true /\
+  option_map (fun t => (s_ord t, s_row t, s_num_rows t)) (next_row m s) = Some (2, 0, 16) /\
+  option_map (fun t => (s_ord t, s_row t, s_num_rows t)) (next_row m sj) = Some (0, 40, 64) /\
+  option_map (fun t => (s_ord t, s_row t)) (next_row m {| s_ord := 2; s_row := 15; s_pos := 2; s_frame := 0; s_pbreak := 0; s_jump := -1; s_delay := 0; s_jumpline := 0;
+                                                         s_loop_dest := -1; s_loop_param := -1; s_num_rows := 16; s_rowdelay := 0; s_rowdelay_set := 0 |}) = Some (0, 0).
+Proof. vm_compute. repeat split; reflexivity. Qed.
